@@ -836,6 +836,56 @@ theorem did_addressing_starves_a_peer :
     { peer := ⟨"b", "", "b:1"⟩, connected := true, authenticated := false }], ⟨"b", "", "b:1"⟩,
    ⟨_, List.mem_cons_of_mem _ (List.mem_cons_self ..), rfl, rfl⟩, 0, _, by decide, rfl, by decide⟩
 
+/-- the connection list as the abstract layer sees it: peers named by (an injective encoding of) their key -/
+def absPeers (enc : String → Nat) (l : List Conn) : List Peer :=
+  l.map (fun c => { key := enc c.peer.key, authenticated := c.authenticated, did := c.peer.did, connected := c.connected })
+
+/-- **The lookup refines the guard of the abstract gossip tick.** The step relation's `gossipTick` sends "if the peer table
+    holds a connected peer with that key", to that key. Reading the REAL connection list through any injective naming of
+    peer keys, that guard is exactly "sendGossip's lookup finds a connection", and the connection found carries the key
+    the abstract message is addressed to. -/
+theorem addressing_refines_gossip_tick_guard (enc : String → Nat) (hinj : ∀ a b, enc a = enc b → a = b)
+    (l : List Conn) (p : TPeer) :
+    ((absPeers enc l).any (fun q => q.key == enc p.key && q.connected) = (sendGossip l p).target.isSome) ∧
+    (∀ i, (sendGossip l p).target = some i → ∃ c, l[i]? = some c ∧ enc c.peer.key = enc p.key) := by
+  constructor
+  · have h := (gossip_reaches_connected_owner l p).1
+    cases ht : (sendGossip l p).target with
+    | none =>
+      simp only [Option.isSome_none]
+      rw [Bool.eq_false_iff]
+      intro hany
+      simp only [absPeers, List.any_map, List.any_eq_true, Function.comp, Bool.and_eq_true, beq_iff_eq] at hany
+      obtain ⟨c, hc, hk, hcon⟩ := hany
+      have := h.mp ⟨c, hc, hcon, hinj _ _ hk⟩
+      rw [ht] at this
+      obtain ⟨i, hi⟩ := this
+      cases hi
+    | some i =>
+      simp only [Option.isSome_some]
+      obtain ⟨c, hc, h1, h2⟩ := h.mpr ⟨i, ht⟩
+      simp only [absPeers, List.any_map, List.any_eq_true, Function.comp, Bool.and_eq_true, beq_iff_eq]
+      exact ⟨c, hc, by rw [h2], h1⟩
+  · intro i hi
+    obtain ⟨c, hc, _, hk, _⟩ := (gossip_addressed_to_queue_owner l p).1 i hi
+    exact ⟨c, hc, by rw [hk]⟩
+
+/-- … hence the abstract tick of a peer's queue emits its Gossip message exactly when `sendGossip` finds a connection
+    (end-to-end: connection list -> lookup -> step of the protocol model, to which safety_any_schedule / converges apply) -/
+theorem gossip_tick_uses_the_lookup (enc : String → Nat) (hinj : ∀ a b, enc a = enc b → a = b)
+    (l : List Conn) (p : TPeer) (n : Node) (q : PeerQueue) (hp : n.peers = absPeers enc l)
+    (hq : n.queues.find? (fun x => x.peer == enc p.key) = some q) :
+    (gossipTick n (enc p.key)).out =
+      (if (sendGossip l p).target.isSome then [(enc p.key, Msg.gossip q.xor q.clock q.queue)] else []) := by
+  unfold gossipTick
+  rw [hq]
+  simp only [hp, (addressing_refines_gossip_tick_guard enc hinj l p).1]
+  split <;> simp_all
+
+/-- non-vacuity of the refinement: a naming exists (keys of a two-entry list), the peer table is its image -/
+example : (absPeers (fun s => if s = "a()@h" then 1 else if s = "b()@h" then 2 else 0)
+    [{ peer := ⟨"a", "", "h"⟩, connected := true, authenticated := false }]).any (fun q => q.key == 1 && q.connected) = true := by decide
+
 /-- an empty query selects nothing (`get`: "make sure we're not returning the first random connection by accident") -/
 theorem empty_query_selects_nothing (l : List Conn) : get l [] = none := rfl
 
